@@ -98,8 +98,8 @@ PROPS = {
                   "make_shared and construction-time constant members) where the chain is modelled; no integer division by "
                   "never-initialised member state or by a caller-chosen value that no live check keeps away from zero; every subscript of a parameter / local vector whose index is affine in "
                   "counted-loop variables and whose size is fixed by a live check or by construction stays inside the container (G7)",
-        "not_decided": "value-range safety of index arithmetic outside the affine fragment of G7 (subscripts of members, of results of "
-                       "solve(), indices loaded from data or formed from products of variables), termination and complexity "
+        "not_decided": "value-range safety of index arithmetic outside the affine fragment of G7 (subscripts of members without a constructor-established size, of "
+                       "results of solve(), indices loaded from data or formed from products of variables), termination and complexity "
                        "(except the C15 clause)",
         "explanation": "G1 enumerates every solve() of every plan class with delegation closure over the call graph (virtual calls "
                        "fanned out to all overriders); G2 enumerates every unchecked subscript in every function with container "
